@@ -16,6 +16,8 @@ use_repo()
 import sandboxequiv_common as sc            # noqa: E402
 import sandboxequiv_gen as sg               # noqa: E402
 import sandboxequiv_limits as sl            # noqa: E402
+import sandboxequiv_compile as scomp        # noqa: E402
+import sandboxequiv_history as shist        # noqa: E402
 import sandboxequiv_ref as ref              # noqa: E402
 import translate_sandboxequiv as tr         # noqa: E402
 from translate_sandboxequiv import translate  # noqa: E402
@@ -225,10 +227,29 @@ class A:
         return isinstance(other, A) and self.v == other.v
 class Plain:
     pass
+class Stack(list):
+    pass
+class Celsius(float):
+    pass
+class Name(str):
+    pass
+class Score(int):
+    pass
+class Fake:
+    def __init__(self, text):
+        self.text = text
+    def __repr__(self):
+        return self.text
 """
 CALL_ARGS = ["3", "'abc'", "None", "[1, 2]", "{'k': (1, 2)}", "float('inf')", "float('nan')", "-0.0", "range(3)",
              "'x' * 198", "'x' * 199", "'x' * 300", "[7] * 100", "set()", "{1}", "frozenset({1})", "b'q'", "(1+2j)",
-             "True", "1e22", "OBJ", "PLAIN", "VAR", "[float('inf')]", "10 ** 250", "''", "\"it's\"", "3", "'abc'"]
+             "True", "1e22", "OBJ", "PLAIN", "VAR", "[float('inf')]", "10 ** 250", "''", "\"it's\"", "3", "'abc'",
+             # values of other types with the SAME repr text as an argument above (and as each other), and equal values
+             # of different types: the model decides per value, a memory keyed on less than the value shows as a
+             # disagreement about the generated call text
+             "STUDENT:Stack([1, 2])", "STUDENT:Celsius(-0.0)", "STUDENT:Name('abc')", "STUDENT:Score(3)", "STUDENT:Fake('3')",
+             "STUDENT:Fake('[1, 2]')", "STUDENT:Fake('None')", "STUDENT:Fake(\"'abc'\")", "STUDENT:Score(True)", "1", "1.0",
+             "0.0", "0", "False", "[1, 2]", "(1, 2)", "[True, 2]", "[1.0, 2.0]", "STUDENT:Stack([1.0, 2.0])"]
 
 
 def make_call_case(rng):
@@ -278,6 +299,8 @@ def build_call_case(case):
             return sb.data["Plain"]()
         if expr == "VAR":
             return SandboxVariable("some_var", sb.data["some_var"])
+        if expr.startswith("STUDENT:"):
+            return eval(expr[len("STUDENT:"):], sc.student_env(sb.data))
         return eval(expr, {"__builtins__": __builtins__ if isinstance(__builtins__, dict) else __builtins__.__dict__})
     args = [value(a) for a in case["args"]]
     kwargs = {k: value(a) for k, a in case["kwargs"].items()}
@@ -333,7 +356,10 @@ def call_request(case, sb, args, kwargs):
     kw_entries = [(k, arg_entry(v)) for k, v in kwargs.items()]
     # CPython's evaluation of each repr text in the student namespace
     lits = {}
-    for vid, text, n, literal, var, v in entries + [e for _, e in kw_entries]:
+    every = entries + [e for _, e in kw_entries]
+    # (two arguments of one call may share a text and differ in type: the table says what the TEXT evaluates to, so the
+    # entry whose value really is that literal decides, whatever the order)
+    for vid, text, n, literal, var, v in sorted(every, key=lambda e: not e[3]):
         if var is not None or text in lits:
             continue
         try:
@@ -506,7 +532,7 @@ def shrink(case, sig):
             r = sc.run_reference([c])[0]
             if "timeout" in r or "harness_error" in r:
                 return None
-            return sc.oracle(c, r, sc.run_sandbox(c))
+            return sc.judge(c, r, sc.run_sandbox(c))
         except Exception:       # noqa
             return None
     cur = dict(case)
@@ -552,6 +578,28 @@ def shrink(case, sig):
     return cur
 
 
+def shrink_history(case, sig, what, budget=8):
+    """A call history is shrunk in FRESH processes only (in this one, whatever an earlier case left behind in pedal
+    would let the priming call be dropped): cut everything after the failing step, then drop earlier steps one by one."""
+    import re
+    cur = case
+    m = re.match(r"^(?:call|step) (\d+) ", what or "")
+    if m and int(m.group(1)) + 1 < len(case.get("calls", [])):
+        cand = dict(case, calls=case["calls"][:int(m.group(1)) + 1])
+        budget -= 1
+        if sc.judge_alone(cand) == sig:
+            cur = cand
+    i = len(cur.get("calls", [])) - 2
+    while i >= 0 and budget > 0:
+        calls = cur["calls"]
+        cand = dict(cur, calls=calls[:i] + calls[i + 1:])
+        budget -= 1
+        if sc.judge_alone(cand) == sig:
+            cur = cand
+        i -= 1
+    return cur
+
+
 ADDRESS = __import__("re").compile(r" at 0x[0-9a-fA-F]+>")
 
 
@@ -577,10 +625,21 @@ def search(rng, tier, broken, corr):
     # arguments / globals, lengths, line of the error) and text that is not printable characters + "\\n", in every channel
     lim_cases, info["boundary_dimensions"] = sl.limit_cases(rng, tier)
     cases += lim_cases
+    # programs whose behaviour depends on how the source is compiled / on the module they run as (annotations of every
+    # kind, every __future__ feature, assert/__debug__/docstrings, expression statements, decorators, class bodies, ...)
+    comp_cases, info["compile_dimensions"] = scomp.compile_cases(rng, tier)
+    cases += comp_cases
+    # call() argument passing as a HISTORY in one process: look-alike values of different types one after the other,
+    # the same object again after a change, the same call after the function / the program changed
+    hist_cases, info["history_dimensions"] = shist.history_cases(rng, tier)
+    cases += hist_cases
     refs = sc.run_reference(cases)
     failures = {}
     nt = set()
     shrink_spent = 0.0
+    alone_checks = 0
+    history_shrinks = 0
+    needs_earlier = {}
     for c, r in zip(cases, refs):
         if "timeout" in r:
             info["skipped"]["reference-timeout"] = info["skipped"].get("reference-timeout", 0) + 1
@@ -595,13 +654,13 @@ def search(rng, tier, broken, corr):
         info["evaluations"] += 1
         try:
             sb = sc.run_sandbox(c)
-            v = sc.oracle(c, r, sb)
+            v = sc.judge(c, r, sb)
         except Exception as e:       # noqa
             info.setdefault("harness_errors", []).append("%s: %s" % (type(e).__name__, e))
             continue
         nt.add((r["outcome"][0] if r["outcome"] else "normal", len(r["events"]) > 0, len(c.get("calls", [])) > 0))
         for tag in c.get("shape", []):
-            if tag.startswith(("limit:", "odd:", "odd-", "deep-chain")):
+            if tag.startswith(("limit:", "odd:", "odd-", "deep-chain", "compile:", "history:")):
                 dim = ":".join(tag.split(":")[:2])
                 info.setdefault("evaluated_per_dimension", {})
                 info["evaluated_per_dimension"][dim] = info["evaluated_per_dimension"].get(dim, 0) + 1
@@ -610,22 +669,41 @@ def search(rng, tier, broken, corr):
         key = json.dumps(v[0], sort_keys=True)
         if key in failures:
             continue
+        if c.get("shape", [""])[0].startswith("history:") and alone_checks < 6:
+            # a history must be self-contained (the replay runs it in a fresh process): what an EARLIER case of this run
+            # left behind in pedal may be what makes this one fail - then a later case with the priming call inside is kept
+            alone_checks += 1
+            if sc.judge_alone(c) != v[0]:
+                info["history_failures_needing_earlier_cases"] = info.get("history_failures_needing_earlier_cases", 0) + 1
+                needs_earlier.setdefault(key, (c, v))
+                continue
         # shrinking costs fresh interpreters: a defect that shows under many signatures must not turn the run into minutes
         t_sh = time.time()
-        small = shrink(c, v[0]) if shrink_spent < (20 if tier == "quick" else 180) else c
+        if c.get("shape", [""])[0].startswith("history:"):
+            small = shrink_history(c, v[0], v[1]) if history_shrinks < 2 else c
+            history_shrinks += 1
+        else:
+            small = shrink(c, v[0]) if shrink_spent < (20 if tier == "quick" else 180) else c
         shrink_spent += time.time() - t_sh
         r2 = sc.run_reference([small])[0]
         sb2 = sc.run_sandbox(small)
-        v2 = sc.oracle(small, r2, sb2) or v
+        v2 = sc.judge(small, r2, sb2) or v
         failures[key] = Failure(v[0], v2[1], {"case": small, "plain": {"outcome": r2.get("outcome"),
                                                                        "text": sc.plain_text(r2.get("events", []))[-400:]},
                                               "sandbox": {"outcome": sb2.get("outcome"), "text": (sb2.get("out") or "")[-400:]}})
         if len(failures) >= 40:
             break
+    for key, (c, v) in needs_earlier.items():
+        if key not in failures:
+            # never seen self-contained: reported as found (the replay needs the process history, said so)
+            failures[key] = Failure(v[0], v[1] + " (seen only after the earlier cases of this run: pedal keeps state "
+                                                 "between programs; a fresh process may not show it)",
+                                    {"case": c, "plain": {}, "sandbox": {}})
     # the traced reference against the completely untouched interpreter
     sample = [c for c in cases if not c.get("limit")]
     sample = rng.sample(sample, min(len(sample), 40 if tier == "quick" else 1200))
     sample += rng.sample(lim_cases, min(len(lim_cases), 24 if tier == "quick" else 400))
+    sample += rng.sample(comp_cases, min(len(comp_cases), 40 if tier == "quick" else 1500))
     by_code = {id(c): r for c, r in zip(cases, refs)}
     from concurrent.futures import ThreadPoolExecutor
     with ThreadPoolExecutor(max_workers=8) as ex:
@@ -662,7 +740,7 @@ def replay(payload):
         return 0
     r = sc.run_reference([case])[0]
     sb = sc.run_sandbox(case)
-    v = sc.oracle(case, r, sb)
+    v = sc.judge(case, r, sb)
     print("program  :\n" + case["code"])
     print("inputs   :", case.get("inputs"), " calls:", case.get("calls"))
     print("plain    : outcome", r.get("outcome"), "text", repr(sc.plain_text(r.get("events", [])))[:300],
